@@ -118,11 +118,10 @@ Fixpoint spec_from (ns : N) (a : abs) (ops : list op) : list obs :=
 Definition spec_run (ns : N) (ops : list op) : list obs := spec_from ns abs_init ops.
 
 (* ---- the operations whose implementation is known to be defective (see Properties.v):
-   InsertObjectAt with a valid position, Resize(0) of a non-empty container.
+   Resize(0) of a non-empty container (it frees the list).
    [safe_hist] is stated on the specification state only. *)
 Definition safe_op (a : abs) (o : op) : bool :=
   match o with
-  | OInsertAt s i v => (i =? 0) || (len (get a s) + 1 <? i)
   | OResize s n => negb (n =? 0) || (len (get a s) =? 0)
   | _ => true
   end.
